@@ -32,7 +32,7 @@ def unionSize (a b : List Nat) : Nat := a.length + (diff b a).length
 
 /-- total abundance of `h` in a multiset of (hash, abundance) insertions -/
 def total (items : List (Nat × Nat)) (h : Nat) : Nat :=
-  ((items.filter (fun p => p.1 == h)).map Prod.snd).foldl (· + ·) 0
+  ((items.filter (fun p => p.1 == h)).map Prod.snd).sum
 
 /-- does a sketch with ceiling `maxHash` retain `h`?  (`maxHash = 0`: num sketch, no ceiling) -/
 def within (maxHash h : Nat) : Bool := maxHash == 0 || h ≤ maxHash
@@ -82,4 +82,12 @@ def belowSk (m : Nat) (s : Sk) : Sk :=
   { s with maxHash := m, mins := below m s.mins,
            abunds := s.abunds.map (fun ab => (belowP m (s.mins.zip ab)).map Prod.snd) }
 
+end SetOps
+
+namespace SetOps
+/-- the same comparison with the operands exchanged: (prod, a_sq, b_sq) ↦ (prod, b_sq, a_sq); the
+Jaccard pair is symmetric -/
+def SimParts.swap : SimParts → SimParts
+  | .jaccard c n => .jaccard c n
+  | .angular p a b => .angular p b a
 end SetOps
